@@ -59,6 +59,84 @@ def handleReload (args : List String) : Option String :=
     some (joinWith ";" outs.reverse)
   | _ => none
 
+/-! `reload2|<na>,<nh>,<np>|<ifaces>|<start conf>|<event>;<event>;…` — reload sequences with the decisions
+of the address policies on a fixed probe set.
+  conf: `<decode>,<block>,<domains>,<phantom>,<allow>,<public 0/1>`; a list is `-` or entries separated by `/`;
+  an entry is `e` (does not parse), `p` (parser panics) or `o` followed by the `.`-separated indices of the probes
+  it contains / matches (what the real `IPNet.Contains` / `MatchString` answered); ifaces: `E` or such a list;
+  event: the six fields of a conf, then `<sel o/e>,<geo o/m/e>`.
+→ `<start>;<event>;…`, start = `ok:<covert>:<domain>:<phantom>` (one 0/1 per probe: refused?), event =
+  `s<i>g<i>:<covert>:<domain>:<phantom>` (index of the reload that last replaced selector / GeoIP) or `panic` -/
+
+def parseTok (s : String) : Option (Outcome (List Nat)) :=
+  if s == "e" then some .err else if s == "p" then some .panic else
+  match s.toList with
+  | 'o' :: rest =>
+    if rest.isEmpty then some (.ok []) else
+      (((String.ofList rest).splitOn ".").mapM (fun (x : String) => x.toNat?)).map Outcome.ok
+  | _ => none
+
+def parseToks (s : String) : Option (List String) :=
+  if s == "-" then some [] else do
+    let l := s.splitOn "/"
+    let _ ← l.mapM parseTok       -- every entry must be well-formed
+    some l
+
+/-- the parser oracle of `reload2`: the entry is its recorded outcome (entries were validated by `parseToks`) -/
+def tokOracle (s : String) : Outcome (List Nat) := (parseTok s).getD .err
+
+abbrev Pol2 := Parsed (List Nat) (List Nat)
+
+def parseConf2 (f : List String) (ifaces : Option (List (List Nat))) : Option (Outcome Pol2) :=
+  match f with
+  | [dec, b, d, p, a, pub] => do
+    let raw : Raw := { block := ← parseToks b, domains := ← parseToks d, phantom := ← parseToks p,
+                       allow := ← parseToks a, publicAddrs := ← parseBool pub }
+    let decoded ← (if dec == "E" then some Decoded.err else if dec == "N" then some (Decoded.ok none)
+      else if dec == "R" then some (Decoded.ok (some raw)) else none)
+    some (parseConfig tokOracle tokOracle ifaces decoded)
+  | _ => none
+
+def vec (n : Nat) (f : Nat → Bool) : String :=
+  String.ofList ((List.range n).map fun i => if f i then '1' else '0')
+
+def decisions (na nh np : Nat) (pol : Pol2) : String :=
+  let has : List Nat → Nat → Bool := fun n i => n.contains i
+  vec na (pol.covertAddrBlocked has) ++ ":" ++ vec nh (fun i => pol.domains.any (fun r => r.contains i)) ++ ":" ++
+    vec np (pol.phantomBlocked has)
+
+def handleReload2 (args : List String) : Option String :=
+  match args with
+  | [ns, ifs, start, evs] => do
+    let (na, nh, np) ← (match ns.splitOn "," with
+      | [a, h, p] => do some (← a.toNat?, ← h.toNat?, ← p.toNat?)
+      | _ => none)
+    let ifaces : Option (List (List Nat)) ← (if ifs == "E" then some none else do
+      let toks ← parseToks ifs
+      let nets ← toks.mapM fun t => match parseTok t with | some (.ok n) => some n | _ => none
+      some (some nets))
+    let startPol ← (match ← parseConf2 (start.splitOn ",") ifaces with
+      | .ok p => some p
+      | _ => none)
+    let evs ← ((fields evs ";").zipIdx.mapM fun (s, i) =>
+      match s.splitOn "," with
+      | [dec, b, d, p, a, pub, sl, g] => do
+        let conf ← parseConf2 [dec, b, d, p, a, pub] ifaces
+        let sel ← (if sl == "o" then some (some (i + 1)) else if sl == "e" then some none else none)
+        let geo ← (if g == "o" then some (GeoLoad.ok (i + 1)) else if g == "m" then some (.missing (i + 1))
+          else if g == "e" then some .err else none)
+        some (conf, sel, geo)
+      | _ => none)
+    let (_, outs) := evs.foldl (fun (acc : Option (Station Nat Pol2 Nat) × List String) ev =>
+      match acc.1 with
+      | none => (none, "panic" :: acc.2)
+      | some st =>
+        match reload st ev.1 ev.2.1 ev.2.2 with
+        | .ok st' => (some st', s!"s{st'.selector}g{st'.geoip}:{decisions na nh np st'.policy}" :: acc.2)
+        | _ => (none, "panic" :: acc.2)) (some ⟨0, startPol, 0⟩, [])
+    some (joinWith ";" (("ok:" ++ decisions na nh np startPol) :: outs.reverse))
+  | _ => none
+
 def handleStats (args : List String) : Option String :=
   match args with
   | [dl, cl, dn, cn, ops] => do
